@@ -238,7 +238,7 @@ func (d *Disk) Delete(ctx context.Context, key ds.Key) error {
 }
 
 func (d *Disk) Sync(ctx context.Context, prefix ds.Key) error { return nil }
-func (d *Disk) Close() error                                   { return nil }
+func (d *Disk) Close() error                                  { return nil }
 
 type batch struct {
 	d   *Disk
